@@ -83,7 +83,8 @@ func genIsoPkg(r *Rng, i int) isoPkg {
 	if p.Lang == "go" {
 		switch r.Intn(4) {
 		case 0:
-			p.GoExtra = `,"overrides":[{"column":"items.c1","go_type":"github.com/example/custom.Thing"}]`
+			// (every package its own import path, all ending in the same element)
+			p.GoExtra = fmt.Sprintf(`,"overrides":[{"column":"items.c1","go_type":"github.com/example/p%d/custom.Thing"}]`, i)
 			p.Tags = append(p.Tags, "column-override")
 		case 1:
 			p.GoExtra = `,"overrides":[{"db_type":"text","go_type":"github.com/example/custom.Text"}],"rename":{"c0":"Zero"}`
